@@ -323,6 +323,9 @@ def pm_cases(draw):
         xs = [v] * draw(st.integers(2, 9))
         if draw(st.booleans()):
             xs[-1] = v + 1e-9
+    if xs and draw(st.integers(0, 4)) == 0:
+        # values below zero (semitones re a reference, z-scores): "values of zero are removed" removes zeros, nothing else
+        xs = [(-v if i % 2 else v) for i, v in enumerate(xs)]
     return {"series": xs, "window": draw(st.sampled_from([None, None, 0, 1, 3, 5, 4])), "filter_zero": draw(st.booleans())}
 
 
@@ -333,6 +336,8 @@ def pe_cases(draw):
     if n >= 2 and draw(st.booleans()):
         i = draw(st.integers(1, n - 1))
         ps[i] = ps[i - 1] * draw(st.sampled_from([2, 0.5, 1.4, 0.7, 3]))
+    if n >= 2 and draw(st.integers(0, 5)) == 0:
+        ps[-1] = draw(st.sampled_from([0, 0.0]))  # the track ends in an unvoiced (0 Hz) sample: a drop like any other
     track = [[round(0.01 * (i + 1), 2), v] for i, v in enumerate(ps)]
     return {"track": track, "threshold": draw(st.sampled_from([0.7, 0.7, 0.5, 0.9, 1.0, 0.25, 0.99])), "mark": draw(st.booleans())}
 
